@@ -163,6 +163,9 @@ int disasm_cp1610(
 
           data |= ((opcode >> 2) & 0x3f) << 10;
 
+          // In case no row of table_cp1610_jump matches.
+          strcpy(instruction, "???");
+
           for (j = 0; j < 6; j++)
           {
             if (table_cp1610_jump[j].ii == ii)
